@@ -35,7 +35,10 @@ P = {'id': 'C20',
                'std, which is weaker than proof and labelled S-only in the evidence.',
  'level_note': 'Trusted: Coq kernel + vm_compute; hand-written models; harness oracle (exact i128 arithmetic for numeric values, std slice/str operations). Not '
                'modelled: SIMD hash/compare paths of FastStr (oracle: hash/eq coherence over 24 alignments x lengths 0..130 x every constructor), radix and '
-               'block-search paths of SortableStrVec, the rank/select layout of ZoSortedStrVec (shared with C04).',
+               'block-search paths of SortableStrVec, the rank/select layout of ZoSortedStrVec (shared with C04). Oracle breadth (harness/src/c20_wide.rs, oracle only, no Coq '
+               'case): pre-parsed comparator entry points, numerals up to 2^20 digits, FastStr up to 2^20+1 bytes, presets / buffer sizes / maximum line length '
+               'of LineProcessor, operation histories on one reused LineProcessor, LineSplitter, JoinBuilder, SortableStrVec (with its environment options), '
+               'Utf8ToUtf32Iterator and StreamingLexIterator, big sorted lists and ZoSortedStrVec layouts above 2^16 / 2^20 bits.',
  'technique': 'Coq proof (digit-string induction + nia for the comparators; list induction, fuelled loops and a binary-search invariant for the string models; '
               'bit-field arithmetic by lia for the u64 chunk path) + model/implementation differential check by vm_compute + exhaustive/generated oracle for '
               'the spec-only cells',
